@@ -80,7 +80,8 @@ def run():
                 "grid, strings of <= 3 character classes over the full Unicode range) in 18 contexts of depth <= 3 "
                 "(quick: top + rotating 1/4); every value of depth <= 2 with <= 2 children over a 6-scalar palette x "
                 "{array, hash, record} (quick: 1/12 sample of the two-child depth-2 values); hashes with string keys "
-                "(well-formedness half only); seeded random values of depth <= 3 with <= 3 children",
+                "(well-formedness half only); seeded random values of depth <= 3 with <= 3 children; reserved / dotted key names, "
+                "record type names over the character classes, records with declared field types",
         "round_trip_cases": len(rt),
         "class_member_cases": len(cases) - len(rt),
         "unjudged_invalid_utf8": len(rt) - len(judged),
@@ -93,9 +94,13 @@ def run():
     if drift:
         cov["conformance_drift"] = drift
     return flow.finish(out, "exploration", cov, [
-        "NaN and +-Inf are excluded (not representable in JSON); strings that are not valid UTF-8 are recorded but not judged "
-        "(outside the full Unicode range the property quantifies over)",
-        "keys named Atype / zKeyOrder (the reserved members) and duplicate member names are not generated",
+        "strings that are not valid UTF-8 are recorded but not judged (outside the full Unicode range the property quantifies over); "
+        "+-Inf and NaN are floats of the language and are judged (no JSON number denotes them, so the JSON half can only fail)",
+        "keys named like the reserved members Atype / zKeyOrder, dotted symbol keys, record type names with every kind of character and "
+        "records of a type with declared field types (int64, uint64, float64, string, bool) are generated; a symbol key and a string key "
+        "of the same name in one hash are not (such a hash is neither under symbol keys nor obtained from a JSON-style literal)",
+        "only the encoders that have a decoder are judged: (json x)/(msgpack x) = SexpToJson/SexpToMsgpack; the display function (json2 x) "
+        "and compositions of SexpToGo with the Go-value codec are not routes of the statement",
         "well-formedness of the JSON text is delegated to Go's encoding/json (plus utf8.Valid); what the text denotes is decided by Codec!JDen",
         "float64 -> exact decimal expansion and the float64 a JSON number text rounds to are computed with math/big / strconv in the harness (trusted)",
         "msgpack bytes are judged only through the library's own decoder (unmsgpack); uint64 values are counted as integers",
